@@ -653,7 +653,17 @@ def illumination_preparation(check, prog):
         val = {a_many: many, a_2d: twod, a_pol: inpol, a_da: isda, a_one: one,
                a_det: indet, a_same: same}
 
+        def base(t):
+            for a, b in val.items():
+                if match(t, a):
+                    return b
+            return None
+
         def hyp(t, own=own):
+            # (a test may mention a value that is itself conditional -- the
+            # wavelengths after the single one has been repeated: settle that first)
+            if any(x[0] == 'ite' for x in subterms(t)):
+                t = resolve(t, base)
             for a, b in val.items():
                 if match(t, a):
                     return b
@@ -709,7 +719,10 @@ def illumination_preparation(check, prog):
             bad.append(row + ': detector handed on as ' + show(X)[:80])
         if isda:
             okw = W == wl
-        elif inpol and perm:
+        elif inpol and perm and same and own and not one:
+            # ... whose channels are labelled by these very wavelengths: by value
+            okw = labelled(W, lambda t: t == wl, wl)
+        elif inpol and perm and not one:
             # the polarisations name the detector's channels: positional
             # wavelengths follow the detector's order, not the order in which
             # the polarisations happen to be stored (a dictionary's comes back
@@ -721,6 +734,11 @@ def illumination_preparation(check, prog):
             okw = labelled(W, repeated if one else (lambda t: t == wl), pl) or \
                 labelled(W, repeated if one else (lambda t: t == wl),
                          intern(('attr', pl, 'values')))
+            if one and perm and not okw:
+                # (one wavelength for all channels: whose order labels the
+                # copies does not matter)
+                okw = labelled(W, repeated, dl) or \
+                    labelled(W, repeated, intern(('attr', dl, 'values')))
         elif indet and same and not own:
             # positional wavelengths for a detector that has as many channels: the
             # result has to lie on the detector's channel labels, or nothing that
